@@ -27,7 +27,8 @@ pub struct Letter {
 
 pub fn letters(seed: u64, keys: &[[u8; 32]; 2], cs: usize, full: bool) -> Vec<Letter> {
     let mut v = vec![];
-    let lens: Vec<usize> = if full { vec![0, 1, cs] } else { vec![1, cs] };
+    let _ = full;
+    let lens: Vec<usize> = vec![0, 1, cs];
     for key in 0..2u8 {
         for nonce in 0..4u64 {
             for prefix in 0..2u8 {
